@@ -35,6 +35,9 @@ class State:
         self.intolerant = None   # list collecting mutation events (C19) or None
         self.armed_open = None   # (path, fault) to apply when the open returns
         self.active = False
+        self.read_plan = None    # reported I/O errors on reads: {"match": substring, "nth": n} rules and / or {"p", "max", "rng"}
+        self.read_counts = {}
+        self.read_fired = []     # (read event number, relpath, rule)
 
 
 S = State()
@@ -82,6 +85,8 @@ def _hook(ev, args):
             return
         if not (flags & _WFLAGS):
             S.reads += 1
+            if S.read_plan is not None:
+                _read_fault(rel)
             return
         kind = "open-w"
     elif ev in _MUT:
@@ -130,6 +135,22 @@ def _hook(ev, args):
             os._exit(CRASH_CODE)
         S.fired.append((n, kind, "error-before"))
         raise OSError(ERRNOS[f.get("errno", "ENOSPC")], "injected fault at event %d" % n)
+
+
+def _read_fault(rel):
+    """A reported I/O error on opening a file under the store for reading (never a crash: reads create no state)."""
+    rp = S.read_plan
+    for i, rule in enumerate(rp.get("rules") or []):
+        if rule["match"] in rel:
+            c = S.read_counts.get(i, 0) + 1
+            S.read_counts[i] = c
+            if c == rule.get("nth", 1):
+                S.read_fired.append((S.reads, rel, "rule%d" % i))
+                raise OSError(ERRNOS[rule.get("errno", "EIO")], "injected read fault (%s)" % rule["match"])
+    if rp.get("p") and len(S.read_fired) < rp.get("max", 1):
+        if rp["rng"].random() < rp["p"]:
+            S.read_fired.append((S.reads, rel, "random"))
+            raise OSError(ERRNOS[rp.get("errno", "EIO")], "injected read fault at read %d" % S.reads)
 
 
 _fired_sink = None
@@ -238,8 +259,23 @@ def arm(roots, plan=None, intolerant=False, sink=None):
     S.fired = []
     S.intolerant = [] if intolerant else None
     S.armed_open = None
+    S.read_plan = None
+    S.read_counts = {}
+    S.read_fired = []
     S.active = True
     _fired_sink = sink
+
+
+def set_read_plan(rules=None, p=0.0, max_faults=1, seed=0, errno_name="EIO"):
+    """Arm (or, with no arguments, clear) read faults; the seam must be armed.  Deterministic: the random variant draws
+    from its own generator seeded here, one draw per read-open under the roots."""
+    import random
+    if not rules and not p:
+        S.read_plan = None
+        return
+    S.read_plan = {"rules": list(rules or []), "p": p, "max": max_faults, "rng": random.Random(seed), "errno": errno_name}
+    S.read_counts = {}
+    S.read_fired = []
 
 
 def set_plan(plan, base=None):
